@@ -22,6 +22,15 @@ default(dual)
 install(dual)
 hdr = header_file('h1.h')
 pkg_config('dualpkg', version='1.0', includes=[hdr], libs=[dual])
+# a version range in Conflicts (several specifiers of one package), and a
+# range in Requires if the version accepts one
+pkg_config('rangepkg', version='1.0', libs=[dual],
+           conflicts=[('dep', '>=1.2,<2.0,!=1.5'), ('other', '>1,!=3')])
+try:
+    pkg_config('rangepkg2', version='1.0', libs=[dual],
+               requires=[('dep', '>=1.2,<2.0,!=1.5')])
+except ValueError:
+    pass
 found = find_files('extra/*.c', extra='*.h')
 if found:
     executable('fromfound', found)
